@@ -42,12 +42,13 @@ type LexResult struct {
 	Blocks     int
 }
 
+// methodName: the statically resolved callee (a method of the lexer, or - after the methods were turned into functions
+// over a cursor - a function of its package).
 func methodName(cc *ssa.CallCommon) *ssa.Function {
-	f := cc.StaticCallee()
-	if f == nil || f.Signature.Recv() == nil {
+	if cc.IsInvoke() {
 		return nil
 	}
-	return f
+	return cc.StaticCallee()
 }
 
 func contains(l []*ssa.Function, s *ssa.Function) bool {
